@@ -116,7 +116,7 @@ func (m *Model) nextPktTag() uint64 { m.pktTag++; return m.pktTag }
 func (m *Model) upSEIDFor(cp uint64, dst string) uint64 {
 	var ups []uint64
 	for up, x := range m.sess {
-		if x.CP == cp && x.Node+":8805" == dst {
+		if x.CP == cp && m.s.nodeDst(x.Node) == dst {
 			ups = append(ups, up)
 		}
 	}
@@ -183,6 +183,7 @@ func (s *Sim) projections() map[uint64]string {
 
 func (s *Sim) mstep(kind string, dg *Dgram, f func()) {
 	s.stepNo++
+	s.stepA.Store(int64(s.stepNo))
 	s.bump()
 	ctx := &StepCtx{Kind: kind, Dg: dg, t0: s.since()}
 	s.model.curCtx = ctx
